@@ -42,9 +42,22 @@ def handle (hdr : List String) (body : List (List String)) : List String :=
       let impls : List (Bool × Nat) := body.filterMap (fun ws => match ws with
         | ["impl", "ready", r, "head", n, "lowest", _] => n.toNat?.map (fun n => (r == "1", n)) | _ => none)
       let nofiles := nof == "1"
-      let (_, outs, states) := lives.foldl (fun (acc : HSt × List String × List HSt) b =>
-        let h' := liveStep cfg kept fsb nofiles files acc.1 b
-        (h', acc.2.1 ++ [s!"model ready {if h'.ready then 1 else 0} head {if h'.ready then headNum h'.s else 0} lowest {if h'.ready then (lowestBlockNum h'.s).getD 0 else 0}"], acc.2.2 ++ [h']))
+      -- ops in order: live blocks and block stream requests
+      let ops : List (Option Blk × Option Int) := body.filterMap (fun ws => match ws with
+        | ["op", "live", b] => (parseBlk4 b).map (fun b => (some b, none))
+        | ["op", "bsblocks", n] => n.toInt?.map (fun n => (none, some n))
+        | _ => none)
+      let (_, outs, states) := ops.foldl (fun (acc : HSt × List String × List HSt) op =>
+        match op with
+        | (some b, _) =>
+          let h' := liveStep cfg kept fsb nofiles files acc.1 b
+          (h', acc.2.1 ++ [s!"model ready {if h'.ready then 1 else 0} head {if h'.ready then headNum h'.s else 0} lowest {if h'.ready then (lowestBlockNum h'.s).getD 0 else 0}"], acc.2.2 ++ [h'])
+        | (none, some burst) =>
+          let out := match blockstreamBurst acc.1.s burst fsb with
+            | none => ["model bs -", "model bsret nosrc"]
+            | some l => [s!"model bs {if l.isEmpty then "-" else ",".intercalate (l.map (fun b => s!"{idTok b.id}:{b.num}"))}", "model bsret ok"]
+          (acc.1, acc.2.1 ++ out, acc.2.2)
+        | _ => acc)
         (({ s := Forkable.init cfg } : HSt), [], [])
       -- C09: the hub reports ready only after a live block links, through blocks it has been given, down to the LIB
       -- height that block declares
@@ -65,7 +78,16 @@ def handle (hdr : List String) (body : List (List String)) : List String :=
                 | none => false
           if walk (given.length + 1) b then []
           else [s!"monitor C09 FAIL hub-reports-ready-although-the-live-block-{idTok b.id}-does-not-link-to-its-declared-lib-height-{b.lib}"]
-      outs ++ mon
+      -- C09: a block stream request is answered with every retained block at or above the number the request stands
+      -- for (never below the first streamable block nor the lowest servable one), each once, in non-decreasing height
+      let implBs : List String := body.filterMap (fun ws => match ws with | ["impl", "bs", l] => some l | _ => none)
+      let modelBs : List String := outs.filterMap (fun l => match l.splitOn " " with | ["model", "bs", x] => some x | _ => none)
+      let bursts : List Int := ops.filterMap (·.2)
+      let mon2 : List String := match ((implBs.zip modelBs).zip bursts).find? (fun x => x.1.1 != x.1.2) with
+        | none => []
+        | some ((i, m), burst) =>
+          [s!"monitor C09 FAIL block-stream-request-burst-{burst}-is-not-answered-with-the-retained-blocks-from-the-number-it-stands-for :: got {i} expected {m}"]
+      outs ++ mon ++ mon2
     | _, _ => ["model bad-case"]
   | _ => ["model bad-case"]
 
